@@ -1,3 +1,4 @@
+import NasimModel.Generated.LoaderOk
 import NasimModel.Proofs.LoaderInv
 import NasimModel.Props.C18
 /-!
